@@ -19,7 +19,7 @@ Theorem C09_parse_render_refuted_escape_char :
 Proof. exists k6_key. exact escape_char_refuted. Qed.
 
 (* guard: no str key with both quote characters, no str key ending in U+1D1C0,
-   floats are exact doubles below 2^52, no bytes key *)
+   floats are exact doubles below 2^52, bytes keys only when their repr needs no escape *)
 Theorem C09_parse_render_partial :
   forall ks : path, path_ok ks = true -> parse (render ks) = Some (norm ks).
 Proof. exact parse_render. Qed.
@@ -108,7 +108,7 @@ Theorem C09_guard_exact_one_quote_kind :
 Proof. exact guard_exact_one_quote_kind. Qed.
 
 (* --- the guard is satisfiable by hostile keys ------------------------------------------ *)
-Example C09_guard_satisfiable : path_ok hostile_path = true /\ List.length hostile_path = 9%nat.
+Example C09_guard_satisfiable : path_ok hostile_path = true /\ List.length hostile_path = 10%nat.
 Proof. split; reflexivity. Qed.
 
 Print Assumptions C09_parse_render_refuted_both_quotes.
